@@ -57,8 +57,41 @@ def ingest_race(args):
     return dict(prog=prog, problems=problems)
 
 
+def sealed_journal_history(variant):
+    """histories whose journal records end up in a SEALED journal (> 64 MB of traffic in another keyspace, the journal kept
+    alive by unflushed data): tables that are newer than some of those records (bulk ingestion over a journaled key, ingestion
+    after a clear) must win after reopen exactly as before it; dump before close = dump after reopen, point reads = scans"""
+    from common import run_fjv
+    body = {0: ["put h0 61 aa", "ingest h0 61=bb"],
+            1: ["put h0 61 aa", "clear h0", "ingest h0 63=cc"],
+            2: ["put h0 61 aa", "rotate h0", "drain", "put h0 61 ab", "ingest h0 61=bb 64=dd", "del h0 64"],
+            3: ["batch - h0:p:61:aa h1:p:71:aa", "ingest h0 61=bb", "clear h1", "ingest h1 72=cc"]}[variant]
+    L = ["open plain jcomp=none", "ks h0 alpha", "ks h1 beta", "ks h2 gamma"] + body + \
+        ["put h0 62 bb", "put h1 73 dd", "bigfill h2 66 1024 t0", "rotate h2", "drain", "info", "scan - h0 fwd all", "scan - h1 fwd all",
+         "get - h0 61", "reopen", "ks h0 alpha", "ks h1 beta", "scan - h0 fwd all", "scan - h1 fwd all", "get - h0 61",
+         "reopen", "ks h0 alpha", "ks h1 beta", "scan - h0 fwd all", "scan - h1 fwd all", "get - h0 61"]
+    prog = "\n".join(L) + "\n"
+    o, raw, rc = run_fjv(prog, timeout=300)
+    n = len(L)
+    before = (o.get(n - 14), o.get(n - 13), o.get(n - 12))
+    after = (o.get(n - 8), o.get(n - 7), o.get(n - 6))
+    after2 = (o.get(n - 2), o.get(n - 1), o.get(n))
+    if "journals=2" not in (o.get(n - 15) or ""):
+        return None
+    if before[0] is None or after != before or after2 != before:
+        return ("content with a sealed journal: before close (alpha, beta, get 61) = %s, after reopen %s, after second reopen %s"
+                % (before, after, after2), prog)
+    v = before[2]
+    if v and v.startswith("some ") and ("61=" + v[5:]) not in before[0]:
+        return ("point read of 61 (%s) disagrees with the scan (%s)" % (v, before[0]), prog)
+    return None
+
+
 def run(rep, tier, seed, build):
     from common import pmap
+    sj = [x for x in pmap(sealed_journal_history, [seed % 4, (seed + 1) % 4] if tier == "quick" else [0, 1, 2, 3], workers=4) if x]
+    for msg, prog in sj[:1]:
+        rep.violation("# C04: %s\n%s" % (msg, prog))
     n, nops = (240, 40) if tier == "quick" else (5000, 100)
     progs = programs(seed, n, nops)
     res = run_seq(rep, progs)
@@ -77,7 +110,7 @@ def run(rep, tier, seed, build):
                              "(scans + point reads) at the end; compared between implementation, model(as_is), oracle(ideal); "
                              "non-trivial = >= 4 distinct operation kinds, distinct by operation-kind sequence",
                         samples=[progs[0].splitlines()[:14]], op_histogram=dict(res["ophist"]),
-                        known_finding_programs=st["known_finding_programs"], ingest_race_schedules=len(rr),
+                        known_finding_programs=st["known_finding_programs"], ingest_race_schedules=len(rr), sealed_journal_histories=2 if tier == "quick" else 4,
                         correspondence_failures=st.get("correspondence_failures", 0))
 
 
